@@ -263,3 +263,34 @@ def derives_from_call(F, labels, target, depth=2):
             if derives_from_call(F, Origins(F.fns[c]).of_local(0), target, depth - 1):
                 return True
     return False
+
+
+
+def stale_flags(fn):
+    """[(local, names, outer header, inner header, test block)]: a bool flag that an inner loop sets to true and the enclosing
+    loop tests after the inner loop, without being set back to false on every path from the outer header to the inner loop:
+    from the second outer iteration on the test sees what an earlier iteration found"""
+    loops = cfg.natural_loops(fn)
+    out = []
+    for oh, obody in loops.items():
+        for ih, ibody in loops.items():
+            if ih == oh or not (ibody < obody) or ih not in obody:
+                continue
+            sets_true = {}
+            for b, j, pl, rv, m in fn.assigns():
+                if b in ibody and not pl["p"] and fn.local_ty(pl["l"]) == "bool" and rv["k"] == "use" and rv["ops"][0].get("int") == "1":
+                    sets_true.setdefault(pl["l"], []).append(b)
+            for l, tb in sets_true.items():
+                names = fn.var_names().get(l, set())
+                if not names:
+                    continue
+                tests = [sb for sb, ft, tt in bool_switches(fn, l) if sb in obody and sb not in ibody]
+                if not tests:
+                    continue
+                resets = {b for b, j, pl, rv, m in fn.assigns() if b in obody and b not in ibody and pl["l"] == l and not pl["p"]
+                          and rv["k"] == "use" and rv["ops"][0].get("int") == "0"}
+                # can the inner header be reached from the outer header (inside the outer body) without a reset?
+                reach = cfg.reachable(fn, oh, removed=resets | (set(range(len(fn.blocks))) - obody))
+                if ih in reach and oh not in resets:
+                    out.append((l, sorted(names), oh, ih, tests[0]))
+    return out
